@@ -426,4 +426,49 @@ func (w *World) dslashExpansion(r *Report, g *Grammar, all int64) {
 			r.ok("G-ABBREV", key, pos, "`//` "+pn+" => descendant-or-self::node() before the next step")
 		}
 	}
+	// and the converse: a plain `/` builds nothing between two steps, also when a
+	// `//` came earlier in the same path (a//b/c is not a//b//c)
+	slash := g.tokOfText("/")
+	if slash < 0 {
+		return
+	}
+	plain := map[string][]tokSpec{
+		"between steps":       {name, {Tok: slash, Keep: true}, name, {Tok: eof, Keep: true}},
+		"after an earlier //": {name, {Tok: dslash, Keep: true}, name, {Tok: slash, Keep: true}, name, {Tok: eof, Keep: true}},
+	}
+	for _, pn := range []string{"after an earlier //", "between steps"} {
+		key := "sites:/:" + pn
+		n, bad, cut := 0, "", false
+		for _, o := range w.runPath(g, entry, step, expr, plain[pn]) {
+			if o.Cut {
+				cut = true
+				continue
+			}
+			if o.Panicked {
+				continue
+			}
+			for i, e := range o.Events {
+				if e.Kind != "consume" || e.Tok != slash {
+					continue
+				}
+				n++
+				for _, e2 := range o.Events[i+1:] {
+					if e2.Kind == "step" {
+						break
+					}
+					if e2.Kind == want {
+						bad = fmt.Sprintf("a plain `/` %s builds descendant-or-self::node() before the next step: it is read as `//` (a//b/c selects the c descendants of b, not its c children)", pn)
+					}
+				}
+			}
+		}
+		switch {
+		case bad != "":
+			r.bad("G-ABBREV", key, pos, bad)
+		case cut || n == 0:
+			r.undec("G-ABBREV", key, pos, "the path parser could not be followed for `/` "+pn)
+		default:
+			r.ok("G-ABBREV", key, pos, "`/` "+pn+" => the next step directly")
+		}
+	}
 }
